@@ -11,4 +11,7 @@ int lay_manifest_state(const char *dbdir, rm_state_t *st, char *err, size_t en);
 /* full well-formedness check of the reported level structure; 1 ok */
 int lay_check(ldb_t *db, const char *dbdir, const kcfg_t *cfg, lay_stats_t *stats, char *err, size_t en);
 
+/* directory == live files, live logs taken from the MANIFEST's log number; 1 ok */
+int lay_files_exact_check(ldb_t *db, const char *dbdir, char *err, size_t en);
+
 #endif
